@@ -5,7 +5,7 @@
 set -u
 PID=$1; WT=$2; shift 2
 DEMO=("$@")
-OUT=/verif/seeded/$PID
+OUT=${SEED_OUT:-/verif/seeded/$PID}
 mkdir -p $OUT
 cp $WT/SEED/patch.diff $WT/SEED/demo.diff $OUT/ 2>/dev/null
 cd $WT
